@@ -79,7 +79,9 @@ Record wstate := mk_w {
   w_closes : nat      (* ghost: calls of ms.GetStream().Close() made by the wrapper *)
 }.
 
-Inductive wop := Accept | Close | IsAccepted.
+(* Close carries an input bit: whether the underlying ms.GetStream().Close()
+   returned nil (true) or an error (false); the current code ignores the result *)
+Inductive wop := Accept | Close (under_ok : bool) | IsAccepted.
 
 Inductive wres :=
 | RStream      (* (s.ms, false, nil): the caller now owns the stream *)
@@ -95,7 +97,8 @@ Definition wstep (w : wstate) (o : wop) : wstate * wres :=
       else if w.(w_acc) then (w, RAlready)
       else (mk_w w.(w_ms) w.(w_err) true w.(w_closes), RStream)
   | IsAccepted => (w, RBool w.(w_acc))
-  | Close =>
+  | Close _ =>
+      (* s.ms.GetStream().Close() -- result not looked at -- ; s.err = errSolicitationClosed; return true *)
       if w.(w_acc) || negb w.(w_ms) then (w, RBool false)
       else (mk_w w.(w_ms) true w.(w_acc) (S w.(w_closes)), RBool true)
   end.
@@ -161,7 +164,7 @@ Definition sys_step (l : side) (sols : list sol) (s : sys) (a : action) : option
           let (w', r) := wstep w o in
           Some (mk_sys (upd s.(vals) v (st, w')) s.(next) s.(emitted) s.(used)
                        (match r with RStream => st :: s.(got) | _ => s.(got) end)
-                       (match o, r with Close, RBool true => st :: s.(closed) | _, _ => s.(closed) end))
+                       (match o, r with Close _, RBool true => st :: s.(closed) | _, _ => s.(closed) end))
       end
   end.
 
